@@ -132,6 +132,11 @@ b("B31", LMDB,
   "\t\tfor (b, k) in s_ctx.sec_key.0.iter_mut().zip(blind_xor_key.iter()) {\n\t\t\t*b ^= *k;\n\t\t}\n\t\tfor (b, k) in s_ctx.sec_nonce.0.iter_mut().zip(nonce_xor_key.iter()) {\n\t\t\t*b ^= *k;\n\t\t}",
   "masking loop written with iter_mut().zip(..)")
 
+b("B32", FOREIGN,
+  "\t\ttx::update_stored_tx(&mut *w, keychain_mask, &context, &sl, false)?;\n\t\t{\n\t\t\tlet mut batch = w.batch(keychain_mask)?;\n\t\t\tbatch.delete_private_context(sl.id.as_bytes())?;\n\t\t\tbatch.commit()?;\n\t\t}\n\t\tsl.state = SlateState::Standard3;",
+  "\t\tstore_and_forget(&mut *w, keychain_mask, &context, &sl)?;\n\t\tsl.state = SlateState::Standard3;",
+  "storing the finalized tx and deleting the context extracted into a helper (appended)")
+
 
 def _apply(mu, repo_copy):
     p = os.path.join(repo_copy, mu["file"])
@@ -183,6 +188,8 @@ def _apply(mu, repo_copy):
         if src.count(mu["old"]) != 1:
             return "anchor text occurs %d times" % src.count(mu["old"])
         src = src.replace(mu["old"], mu["new"])
+        if bid == "B32":
+            src += "\nfn store_and_forget<'a, T: ?Sized, C, K>(\n\tw: &mut T,\n\tkeychain_mask: Option<&SecretKey>,\n\tcontext: &crate::types::Context,\n\tsl: &Slate,\n) -> Result<(), Error>\nwhere\n\tT: WalletBackend<'a, C, K>,\n\tC: NodeClient + 'a,\n\tK: Keychain + 'a,\n{\n\ttx::update_stored_tx(&mut *w, keychain_mask, context, sl, false)?;\n\tlet mut batch = w.batch(keychain_mask)?;\n\tbatch.delete_private_context(sl.id.as_bytes())?;\n\tbatch.commit()?;\n\tOk(())\n}\n"
         if bid == "B03":
             src += "\nfn refuse_if_already_received<'a, T: ?Sized, C, K>(\n\tw: &mut T,\n\tslate: &Slate,\n\tparent_key_id: &crate::grin_keychain::Identifier,\n\tuse_test_rng: bool,\n) -> Result<(), Error>\nwhere\n\tT: WalletBackend<'a, C, K>,\n\tC: NodeClient + 'a,\n\tK: Keychain + 'a,\n{\n\tlet tx = updater::retrieve_txs(\n\t\t&mut *w,\n\t\tNone,\n\t\tSome(slate.id),\n\t\tNone,\n\t\tSome(parent_key_id),\n\t\tuse_test_rng,\n\t)?;\n\tfor t in &tx {\n\t\tif t.tx_type == TxLogEntryType::TxReceived {\n\t\t\treturn Err(Error::TransactionAlreadyReceived(slate.id.to_string()));\n\t\t}\n\t}\n\tOk(())\n}\n"
     open(p, "w").write(src)
